@@ -2,6 +2,7 @@ package main
 
 import (
 	"fmt"
+	"strings"
 
 	"hmsverif/internal/hs"
 )
@@ -11,7 +12,7 @@ import (
 // before the exit, and the program continues with code that exposes stale handlers, loop
 // labels and operand-stack residue.
 
-var ctlLevels = []string{"loop", "while", "for", "block", "if", "else", "match", "try", "catch", "call", "ifexpr-value", "closure"}
+var ctlLevels = []string{"loop", "while", "for", "block", "if", "else", "match", "try", "catch", "call", "ifexpr-value", "closure", "for-over-global-range", "for-over-global-list"}
 var ctlExits = []string{"break", "continue", "return", "return-value", "throw", "fatal", "none"}
 
 func ctlDepths(tier string) int {
@@ -69,7 +70,7 @@ func ctlCase(tier string, idx int) (progCase, bool) {
 			if levels[i] == "call" || levels[i] == "closure" {
 				break
 			}
-			if levels[i] == "loop" || levels[i] == "while" || levels[i] == "for" {
+			if levels[i] == "loop" || levels[i] == "while" || strings.HasPrefix(levels[i], "for") {
 				ok = true
 				break
 			}
@@ -80,6 +81,13 @@ func ctlCase(tier string, idx int) (progCase, bool) {
 	}
 	prog := &hs.Program{
 		Globals: []*hs.Let{{Name: "G", X: hs.I(0)}, {Name: "G2", X: hs.I(0)}},
+	}
+	overGlobal := false
+	for _, l := range levels {
+		overGlobal = overGlobal || strings.HasPrefix(l, "for-over-global")
+	}
+	if overGlobal {
+		prog.Globals = append(prog.Globals, &hs.Let{Name: "RG", X: &hs.RangeLit{From: hs.I(0), To: hs.I(3)}}, &hs.Let{Name: "LG", X: hs.List(hs.I(10), hs.I(11), hs.I(12))})
 	}
 	// innermost function boundary decides what `return` looks like
 	innerFn := -1
@@ -137,6 +145,12 @@ func ctlCase(tier string, idx int) (progCase, bool) {
 		case "for":
 			body := wrap([]hs.Stmt{hs.Println(hs.S(a), hs.V(iv))}, hs.Println(hs.S(b), hs.V(iv)))
 			return []hs.Stmt{&hs.For{Var: iv, Iter: &hs.RangeLit{From: hs.I(0), To: hs.I(2)}, Body: hs.Blk(nil, body...)}}
+		case "for-over-global-range", "for-over-global-list":
+			// the iterated value outlives the loop: main iterates it again at the very end, from its
+			// first element, however the loop here was left
+			src := map[string]string{"for-over-global-range": "RG", "for-over-global-list": "LG"}[lv]
+			body := wrap([]hs.Stmt{hs.Println(hs.S(a), hs.V(iv))}, hs.Println(hs.S(b), hs.V(iv)))
+			return []hs.Stmt{&hs.For{Var: iv, Iter: hs.V(src), Body: hs.Blk(nil, body...)}}
 		case "block":
 			return []hs.Stmt{hs.ES(&hs.BlockExpr{B: hs.Blk(nil, wrap([]hs.Stmt{hs.Println(hs.S(a))}, hs.Println(hs.S(b)))...)})}
 		case "if":
@@ -245,6 +259,11 @@ func ctlCase(tier string, idx int) (progCase, bool) {
 		hs.ES(&hs.Try{Body: hs.Blk(nil, hs.ES(hs.CallN("throw", hs.S("P")))), Var: "e", Catch: hs.Blk(nil, hs.Println(hs.S("post"), hs.Mem(hs.V("e"), "message")))}),
 		&hs.For{Var: "k", Iter: &hs.RangeLit{From: hs.I(0), To: hs.I(2)}, Body: hs.Blk(nil, hs.Println(hs.S("k"), hs.V("k")))},
 		hs.Println(hs.Bin("+", hs.V("m"), hs.I(1))),
+	}
+	if overGlobal {
+		mainStmts = append(mainStmts,
+			&hs.For{Var: "k", Iter: hs.V("RG"), Body: hs.Blk(nil, hs.Println(hs.S("rg"), hs.V("k")))},
+			&hs.For{Var: "k", Iter: hs.V("LG"), Body: hs.Blk(nil, hs.Println(hs.S("lg"), hs.V("k")))})
 	}
 	// in the tail-throw variant f() itself also ends with a bare call that throws: a stale handler
 	// inside f would catch it instead of main's handler
